@@ -199,6 +199,13 @@ class OtoCheck(object):
                     for k, v in eff + list(kw):
                         self.m_set(M, k, v)
                     D = commit(M)
+                    try:        # the caller keeps using what it passed in
+                        if isinstance(arg, list):
+                            arg.append(('zz-caller', 'zz-scribble'))
+                        elif isinstance(arg, dict):
+                            arg['zz-caller'] = 'zz-scribble'
+                    except Exception:
+                        pass
                 elif name == 'setdefault':
                     k = lf(op[2])
                     dv = lf(op[3]) if len(op) > 3 else None
